@@ -740,4 +740,7 @@ def run(ctx):
     from rules import C20_life
     ctx.guard(C20_life.r15, ctx, prog)
     ctx.guard(C20_life.r16, ctx, prog)
+    from rules import C20_oneshot, C20_cron
+    ctx.guard(C20_oneshot.r17, ctx, prog)
+    ctx.guard(C20_cron.r18, ctx, prog)
     return prog
